@@ -5,8 +5,8 @@ import json, os
 V = os.path.dirname(os.path.dirname(os.path.abspath(__file__)))
 S = os.path.join(V, "seeded")
 res = json.load(open(os.path.join(S, "RESULTS.json"))) if os.path.exists(os.path.join(S, "RESULTS.json")) else {}
-print("| seeded change | property | what it changes | needs to manifest | demo clean/patched | suite with patch | quick | thorough |")
-print("|---|---|---|---|---|---|---|---|")
+print("| seeded change | property | what it changes | needs to manifest | demo clean/patched | suite with patch | quick | thorough | note |")
+print("|---|---|---|---|---|---|---|---|---|")
 for sid in sorted(d for d in os.listdir(S) if os.path.isdir(os.path.join(S, d))):
     m = json.load(open(os.path.join(S, sid, "meta.json")))
     r = res.get(sid, {})
@@ -17,4 +17,4 @@ for sid in sorted(d for d in os.listdir(S) if os.path.isdir(os.path.join(S, d)))
     demo = f"{r.get('demo_clean_exit', '?')}/{r.get('demo_patched_exit', '?')}"
     suite = {True: "unchanged", False: "BROKEN", None: "?"}[r.get("suite_ok_with_patch")]
     cut = lambda s, n: (s[:n] + "…") if len(s) > n else s
-    print(f"| {sid} | {m['property']} | {cut(m.get('summary', '').replace('|', '/').replace(chr(10), ' '), 220)} | {cut(m.get('needs', '').replace('|', '/').replace(chr(10), ' '), 200)} | {demo} | {suite} | {verdict('check_quick')} | {verdict('check_thorough')} |")
+    print(f"| {sid} | {m['property']} | {cut(m.get('summary', '').replace('|', '/').replace(chr(10), ' '), 220)} | {cut(m.get('needs', '').replace('|', '/').replace(chr(10), ' '), 200)} | {demo} | {suite} | {verdict('check_quick')} | {verdict('check_thorough')} | {m.get('strengthening', '')} |")
